@@ -68,7 +68,7 @@ func genNet() *rapid.Generator[uint32] {
 // genModelKey draws the reference endpoint's key pair: mostly from a cached
 // pool (incl. scalars 1, 2, n-1), sometimes fresh.
 func genModelKey(t *rapid.T, label string) *modelKey {
-	if rapid.IntRange(0, 9).Draw(t, label+"-fresh") == 0 {
+	if pick(t, label+"-fresh", 10) == 0 {
 		b := rapid.SliceOfN(rapid.Byte(), 32, 32).Draw(t, label+"-priv")
 		d := new(big.Int).SetBytes(b)
 		d.Mod(d, nMinus1)
@@ -89,6 +89,14 @@ func genChunks(t *rapid.T) []int {
 	return rapid.SampledFrom(readPatterns).Draw(t, "chunk-pattern")
 }
 
+// pick returns a value in [0, n) that is uniform over the drawn 64-bit values
+// (rapid's integer generators favour the ends of a range, which would make
+// "one in n" choices much more frequent than intended).
+func pick(t *rapid.T, label string, n int) int {
+	v := rapid.Uint64().Draw(t, label)
+	return int(splitmix(&v) % uint64(n))
+}
+
 // pkt is one application packet of a script.
 type pkt struct {
 	size   int
@@ -104,7 +112,7 @@ var packetSizes = []int{0, 0, 1, 1, 2, 3, 15, 16, 17, 31, 32, 33, 63, 64, 65, 12
 func genPackets(t *rapid.T, label string, hs int) []pkt {
 	var n int
 	long := false
-	switch k := rapid.IntRange(0, 19).Draw(t, label+"-len-kind"); {
+	switch k := pick(t, label+"-len-kind", 20); {
 	case k < 9:
 		n = rapid.IntRange(0, 6).Draw(t, label+"-n")
 	case k < 14:
@@ -134,7 +142,7 @@ func genPackets(t *rapid.T, label string, hs int) []pkt {
 			continue
 		}
 		var size int
-		switch k := rapid.IntRange(0, 29).Draw(t, label+"-size-kind"); {
+		switch k := pick(t, label+"-size-kind", 30); {
 		case k < 15:
 			size = rapid.SampledFrom(packetSizes).Draw(t, label+"-size")
 		case k < 29:
@@ -143,12 +151,12 @@ func genPackets(t *rapid.T, label string, hs int) []pkt {
 			size = rapid.OneOf(rapid.SampledFrom([]int{65535, 65536, 65537}), rapid.IntRange(0, 70000)).Draw(t, label+"-size")
 		}
 		aad := 0
-		if rapid.IntRange(0, 11).Draw(t, label+"-aad?") == 0 {
+		if pick(t, label+"-aad?", 12) == 0 {
 			aad = rapid.IntRange(1, 40).Draw(t, label+"-aad")
 		}
 		out[i] = pkt{size: size, ignore: rapid.IntRange(0, 3).Draw(t, label+"-ign") == 0, aadLen: aad}
 	}
-	if ev.Thorough() && !long && n > 0 && rapid.IntRange(0, 199).Draw(t, label+"-max") == 0 {
+	if ev.Thorough() && !long && n > 0 && pick(t, label+"-max", 200) == 0 {
 		out[rapid.IntRange(0, n-1).Draw(t, label+"-maxpos")].size = bip324.MaxContentsLen
 	}
 	return out
@@ -161,8 +169,8 @@ func genDecoyLens(t *rapid.T, label string) []int {
 	return rapid.SliceOfN(rapid.OneOf(rapid.SampledFrom([]int{0, 1, 15, 16, 17, 64, 1000}), rapid.IntRange(0, 200)), 1, 4).Draw(t, label)
 }
 
-// crossesRekey reports whether a sender that has already encrypted hs
-// messages reaches message number 224*k with n more, and how many rekeys.
+// rekeys is the number of rekeys of a sender that has encrypted hs handshake
+// messages and then n application packets.
 func rekeys(hs, n int) int { return (hs + n) / bip324.RekeyInterval }
 
 // ---------------------------------------------------------------------------
@@ -178,18 +186,17 @@ var recInterop = ev.New("C19", "interop",
 	"rekey-crossed(model->btcd)", "rekey-crossed(btcd->model)", "rekeys>=3", "decoys(model)", "decoys(btcd)", "packet>=65536")
 
 type interopCase struct {
-	btcdInit    bool
-	net         uint32
-	gB, gM      int
-	key         *modelKey
-	seed        uint64
-	decoysB     []int
-	decoysM     []int
-	versionLen  int
-	chunks      []int
-	toModel     []pkt // btcd -> model
-	toBtcd      []pkt // model -> btcd
-	description string
+	btcdInit   bool
+	net        uint32
+	gB, gM     int
+	key        *modelKey
+	seed       uint64
+	decoysB    []int
+	decoysM    []int
+	versionLen int
+	chunks     []int
+	toModel    []pkt // btcd -> model
+	toBtcd     []pkt // model -> btcd
 }
 
 func genInterop(t *rapid.T) *interopCase {
@@ -602,7 +609,7 @@ func TestLoopback(t *testing.T) {
 		copy(encI[:], toR[:64])
 		copy(encR[:], toI[:64])
 		privI := peerPrivKey(t, pI)
-		if seed&3 == 0 { // costs a reference base-point multiplication
+		if h := seed; splitmix(&h)%4 == 0 { // costs a reference base-point multiplication
 			if x := bip324.EllswiftDecode(encI); x.Cmp(secp.BaseMul(privI).X) != 0 {
 				t.Fatalf("initiator's ElligatorSwift key %x decodes to x=%x, but its private key has x=%x", encI, x, secp.BaseMul(privI).X)
 			}
